@@ -88,6 +88,9 @@ pub struct SeqCase {
     pub other_at: usize,
     /// seconds between steps
     pub dt: i64,
+    /// switch timeout longer (10 s) than the peer timeout (7 s): cached decisions must still die with their claim
+    #[serde(default)]
+    pub long_cache: bool,
 }
 
 pub fn run_seq(c: &SeqCase) -> CaseResult {
@@ -96,7 +99,7 @@ pub fn run_seq(c: &SeqCase) -> CaseResult {
     let q = addr_of(102);
     MockTimeSource::set_time(START_TIME);
     let mut now = START_TIME;
-    let mut table: ClaimTable<MockTimeSource> = ClaimTable::new(SWITCH_TO as u32, PEER_TO as u32);
+    let mut table: ClaimTable<MockTimeSource> = ClaimTable::new(if c.long_cache { 10 } else { SWITCH_TO as u32 }, PEER_TO as u32);
     let mut q_claims: Vec<usize> = vec![];
     let mut class = 0u64;
     for (step, li) in c.seq.iter().enumerate() {
@@ -369,7 +372,7 @@ pub fn run(ctx: &Ctx) {
                 seq.push((x % base) as usize);
                 x /= base;
             }
-            SeqCase { seq, other_at: others[((i / 2) % 3) as usize], dt: (i % 2) as i64 }
+            SeqCase { seq, other_at: others[((i / 2) % 3) as usize], dt: (i % 2) as i64, long_cache: (i / 6) % 2 == 1 }
         },
         run_seq,
     );
@@ -378,8 +381,8 @@ pub fn run(ctx: &Ctx) {
     for a in 0..n as usize {
         for b in 0..n as usize {
             if a >= 65 || b >= 65 {
-                dups.push(SeqCase { seq: vec![a, b], other_at: 99, dt: 0 });
-                dups.push(SeqCase { seq: vec![a, b, a], other_at: 1, dt: 1 });
+                dups.push(SeqCase { seq: vec![a, b], other_at: 99, dt: 0, long_cache: false });
+                dups.push(SeqCase { seq: vec![a, b, a], other_at: 1, dt: 1, long_cache: true });
             }
         }
     }
